@@ -263,6 +263,11 @@ def run(ck, F):
                          f"a file is not registered as (file_name(), read_to_string(path)) of one path (key ok: {key_ok}, content ok: {xml_ok})", fn=ub["path"])
     rule_all_siblings_visited(ck, F, ub)
     rule_every_import_followed(ck, F)
+    # which directory that is, is said by the path the command line gives, as it is given: a resolved path (canonicalize follows a
+    # symbolic link to another directory) lists other siblings (C17.R4 input-path, kept)
+    from rules import c04 as C04
+    from rules import c17 as C17
+    C17.run(C04._Sub(ck, "R4", lambda key: key in ("input-path", "document-chain")), F)
     # content of a sibling flows only into Files::add / Files::new
     for B in units:
         for bb, t in B.calls_to("fs::read_to_string"):
@@ -293,6 +298,21 @@ def rule_all_siblings_visited(ck, F, ub, rule="R4"):
             Bm = M.Body(b)
             for bb, t in Bm.calls():
                 d = M.Body.callee_decl(t) or ""
+                if d.endswith(("Path::read_dir", "fs::read_dir")) and t.get("args"):
+                    # the siblings are the files of ONE directory, the one the start file lies in: files are registered under their bare
+                    # name, so a second directory (a sub folder, a folder named by an entry) brings in files that replace siblings of the
+                    # same name
+                    DIR_ID = M.IDENTITY_CALLS + ("Path::parent", "Option::<T>::unwrap_or", "Option::<T>::unwrap_or_else", "Path::new", "PathBuf::as_path", "Path::to_path_buf",
+                                                 "ops::Deref::deref", "convert::AsRef::as_ref", "Option::<T>::filter", "Option::<P>::unwrap_or")
+                    os_ = M.trace(Bm, t["args"][0], DIR_ID)
+                    foreign = [o for o in os_ if not (o.kind in ("arg", "const") or (o.kind == "call" and (M.Body.callee_decl(o.term) or "").endswith(("Path::parent", "Path::new"))))]
+                    if foreign or not os_:
+                        what = (M.Body.callee_decl(foreign[0].term) or "?").rsplit("::", 2)[-1] if foreign and foreign[0].kind == "call" else (foreign[0].kind if foreign else "?")
+                        ck.violation(rule, "siblings:other-directory", Bm.term(bb).get("sp"),
+                                     f"a directory that is not the one the start file lies in is listed as well (it comes from `{what}`): files are registered under "
+                                     f"their bare names, so a file of that directory replaces the sibling of the same name and is read in its place", fn="")
+                    else:
+                        ck.ok(rule, "siblings:one-directory", Bm.term(bb).get("sp"), "the only directory listed is the one the start file lies in", fn="")
                 if d in NOT_FOLLOWING:
                     ck.violation(rule, f"sibling-kind:{d.rsplit('::', 1)[-1]}", Bm.term(bb).get("sp"),
                                  f"what a directory entry is, is asked with `{d.rsplit('::', 2)[-2]}::{d.rsplit('::', 1)[-1]}`, which does not follow symbolic "
@@ -626,6 +646,37 @@ def rule_verbatim_keys(ck, F, rule):
             else:
                 ck.ok(rule, f"key-verbatim:{b['path'].rsplit('::', 1)[-1]}", B.term(bb).get("sp"), "files are stored under the registered name, verbatim", fn=b["path"])
     ck.floor(rule, "file table insertions", n_ins, 1)
+    # .. and what a file is asked for under is the name the import gives (`schemaLocation`), verbatim: a lookup by part of it (the last
+    # path segment, a lower-cased copy) finds a file of another directory or another spelling
+    LOOKUP_ID = VERBATIM + ("ops::Try::branch", "Option::<T>::ok_or", "Option::<T>::ok_or_else", "Option::<T>::unwrap_or_default", "Option::<T>::unwrap",
+                            "Option::<T>::expect", "Result::<T, E>::ok", "borrow::Borrow::borrow")
+    n_get = 0
+    for b in scans.bodies(F.lib):
+        if "yaserde_tests" in b["path"] or "tests::" in b["path"] or not b["path"].startswith(("reader::", "<reader::")):
+            continue
+        B = I.inlined_body(F.lib, b["path"], stop=lambda p: p.startswith(("model::", "<model::")))
+        if B is None:
+            continue
+        for bb, t in B.calls():
+            d = M.Body.callee_decl(t) or ""
+            if not (any(m_ in d for m_ in KEYED_MAPS) and d.endswith(("::get", "::get_mut", "::contains_key", "::remove", "::get_key_value"))) or len(t.get("args") or []) != 2:
+                continue
+            if not any("map" in o.fields() for o in M.trace(B, t["args"][0], ())):
+                continue
+            keys = M.trace(B, t["args"][1], LOOKUP_ID)
+            if not keys:
+                continue
+            n_get += 1
+            bad = [o for o in keys if not (o.kind == "arg" or (o.kind == "call" and (M.Body.callee_decl(o.term) or "").endswith("::attribute")))]
+            short = b["path"].rsplit("::", 1)[-1]
+            if bad:
+                what = (M.Body.callee_decl(bad[0].term) or "?").rsplit("::", 2)[-1] if bad[0].kind == "call" else bad[0].kind
+                ck.violation(rule, f"lookup-key-not-verbatim:{short}", B.term(bb).get("sp"),
+                             f"{b['path']}: the name a file is looked up under went through `{what}`: it is not the name the import gives, so a file of "
+                             f"another directory or spelling that no import names can be read in its place", fn=b["path"])
+            else:
+                ck.ok(rule, f"lookup-key-verbatim:{short}", B.term(bb).get("sp"), "a file is looked up under the name the import gives, verbatim", fn=b["path"])
+    ck.floor(rule, "file table lookups", n_get, 1)
 
 
 TEST_AND_SET = ("Atomic::<bool>::swap", "Atomic::<bool>::fetch_or", "Atomic::<bool>::compare_exchange", "Atomic::<bool>::compare_exchange_weak")
